@@ -109,8 +109,8 @@ Fixpoint wf_ty (t : ty) (v : uval) {struct t} : Prop :=
          | f :: fs', x :: vs' => wf_ty f x /\ go fs' vs'
          | _, _ => False
          end) fs vs
-  | TEnum w vals, UE z => In z vals /\ (w = 1%nat -> in_u 1 z) /\ (w <> 1%nat -> in_i w z)
-  | TFlags w allbits, UE z => in_i w z /\ signed w (Z.land (wrap w z) allbits) = z
+  | TEnum w vals, UE z => In z vals /\ (0 < w)%nat /\ (w = 1%nat -> in_u 1 z) /\ (w <> 1%nat -> in_i w z)
+  | TFlags w allbits, UE z => (0 < w)%nat /\ in_i w z /\ signed w (Z.land (wrap w z) allbits) = z
   | _, _ => False
   end.
 
